@@ -21,7 +21,7 @@ ID = "C12"
 MANIFEST = {
     "category": "exploration",
     "text": "Schedule exploration by generated-input search: (single) AHB expressions with several modal-mark parts, repeated keys, hints, format constraints and packages occurring several times x content evaluation results x a schedule (list of yield counts consumed call by call by the harness's async RcEvaluator / FcEvaluator methods, HintsProvider and PackageResolver; every third rc method is a plain function). The results of evaluate_ahb_expression_tree (incl. package expansion), requirement_constraint_evaluation and format_constraint_evaluation under the schedule must equal the results under the all-zero schedule and the reference evaluator's selection/outcome; the expanded tree must equal the zero-schedule tree. (concurrent) 2-5 jobs - AHB evaluations and is_valid_expression calls - run as concurrent tasks with yielding ContentEvaluationResult-based evaluators - or a method-based RcEvaluator whose evaluate_<key> coroutines derive their answer from the evaluatable data they are handed - that read the job's own result from a ContextVar; every job must equal its run alone. For is_valid_expression jobs on expressions with 1-3 requirement constraints the harness records which evaluatable data the evaluations of the call were served: exactly the 3^m possible states, each evaluation its own. A third of the concurrent cases use a HintsProvider whose get_hint_text is a plain function reading the job's context-local data.",
-    "note": "Trusted: the schedule harness (vlib/sched.py), the reference evaluator, attrs equality of result objects. Delays enumerate completion orders among already started awaitables of one single-threaded event loop; threads are out of scope. Process configuration by shard (vlib/sut.py; recorded in replay files): plain / parse caches preheated beyond their size / warnings attributed to ahbicht raised as errors / logging fully enabled with every record rendered.",
+    "note": "Trusted: the schedule harness (vlib/sched.py), the reference evaluator, attrs equality of result objects. Delays enumerate completion orders among already started awaitables of one single-threaded event loop; threads are out of scope. Process configuration by shard (vlib/sut.py; recorded in replay files): plain / parse caches preheated beyond their size / warnings attributed to ahbicht raised as errors / logging fully enabled with every record rendered; one event loop per process or a new one per call; five process time zones; the hash seed is the shard number; namesakes of ahbicht's marshmallow schema classes are registered.",
     "technique": "property-based schedule exploration (harness-controlled yield counts) with differential (zero schedule) and reference oracles",
 }
 LEVEL = "exploration"
